@@ -10,57 +10,68 @@ Open Scope Z_scope.
 (* beanquery.query_compile.EvalUnaryOp.__call__ *)
 Definition node_unary : fdef :=
   {| f_params := ["self"; "context"];
-     f_body := [(SAssign (TName "operand") (XCall (XAttr (XName "self") "operand") [(XName "context")] None)); (SReturn (Some (XCall (XAttr (XName "self") "operator") [(XName "operand")] None)))] |}.
+     f_body := [(SAssign (TName "operand") (XCall (XAttr (XName "self") "operand") [(XName "context")] None)); (SReturn (Some (XCall (XAttr (XName "self") "operator") [(XName "operand")] None)))];
+     f_gen := false |}.
 
 (* beanquery.query_compile.EvalUnaryOpSafe.__call__ *)
 Definition node_unary_safe : fdef :=
   {| f_params := ["self"; "context"];
-     f_body := [(SAssign (TName "operand") (XCall (XAttr (XName "self") "operand") [(XName "context")] None)); (SIf (XCompare (XName "operand") [(CIs, (XConst PNone))]) [(SReturn (Some (XConst PNone)))] []); (SReturn (Some (XCall (XAttr (XName "self") "operator") [(XName "operand")] None)))] |}.
+     f_body := [(SAssign (TName "operand") (XCall (XAttr (XName "self") "operand") [(XName "context")] None)); (SIf (XCompare (XName "operand") [(CIs, (XConst PNone))]) [(SReturn (Some (XConst PNone)))] []); (SReturn (Some (XCall (XAttr (XName "self") "operator") [(XName "operand")] None)))];
+     f_gen := false |}.
 
 (* beanquery.query_compile.EvalBinaryOp.__call__ *)
 Definition node_binary : fdef :=
   {| f_params := ["self"; "context"];
-     f_body := [(SAssign (TName "left") (XCall (XAttr (XName "self") "left") [(XName "context")] None)); (SIf (XCompare (XName "left") [(CIs, (XConst PNone))]) [(SReturn (Some (XConst PNone)))] []); (SAssign (TName "right") (XCall (XAttr (XName "self") "right") [(XName "context")] None)); (SIf (XCompare (XName "right") [(CIs, (XConst PNone))]) [(SReturn (Some (XConst PNone)))] []); (SReturn (Some (XCall (XAttr (XName "self") "operator") [(XName "left"); (XName "right")] None)))] |}.
+     f_body := [(SAssign (TName "left") (XCall (XAttr (XName "self") "left") [(XName "context")] None)); (SIf (XCompare (XName "left") [(CIs, (XConst PNone))]) [(SReturn (Some (XConst PNone)))] []); (SAssign (TName "right") (XCall (XAttr (XName "self") "right") [(XName "context")] None)); (SIf (XCompare (XName "right") [(CIs, (XConst PNone))]) [(SReturn (Some (XConst PNone)))] []); (SReturn (Some (XCall (XAttr (XName "self") "operator") [(XName "left"); (XName "right")] None)))];
+     f_gen := false |}.
 
 (* beanquery.query_compile.EvalBetween.__call__ *)
 Definition node_between : fdef :=
   {| f_params := ["self"; "context"];
-     f_body := [(SAssign (TName "operand") (XCall (XAttr (XName "self") "operand") [(XName "context")] None)); (SIf (XCompare (XName "operand") [(CIs, (XConst PNone))]) [(SReturn (Some (XConst PNone)))] []); (SAssign (TName "lower") (XCall (XAttr (XName "self") "lower") [(XName "context")] None)); (SIf (XCompare (XName "lower") [(CIs, (XConst PNone))]) [(SReturn (Some (XConst PNone)))] []); (SAssign (TName "upper") (XCall (XAttr (XName "self") "upper") [(XName "context")] None)); (SIf (XCompare (XName "upper") [(CIs, (XConst PNone))]) [(SReturn (Some (XConst PNone)))] []); (SReturn (Some (XCompare (XName "lower") [(CLe, (XName "operand")); (CLe, (XName "upper"))])))] |}.
+     f_body := [(SAssign (TName "operand") (XCall (XAttr (XName "self") "operand") [(XName "context")] None)); (SIf (XCompare (XName "operand") [(CIs, (XConst PNone))]) [(SReturn (Some (XConst PNone)))] []); (SAssign (TName "lower") (XCall (XAttr (XName "self") "lower") [(XName "context")] None)); (SIf (XCompare (XName "lower") [(CIs, (XConst PNone))]) [(SReturn (Some (XConst PNone)))] []); (SAssign (TName "upper") (XCall (XAttr (XName "self") "upper") [(XName "context")] None)); (SIf (XCompare (XName "upper") [(CIs, (XConst PNone))]) [(SReturn (Some (XConst PNone)))] []); (SReturn (Some (XCompare (XName "lower") [(CLe, (XName "operand")); (CLe, (XName "upper"))])))];
+     f_gen := false |}.
 
 (* beanquery.query_compile.EvalAnd.__call__ *)
 Definition node_and : fdef :=
   {| f_params := ["self"; "context"];
-     f_body := [(SFor "arg" (XAttr (XName "self") "args") [(SAssign (TName "value") (XCall (XName "arg") [(XName "context")] None)); (SIf (XCompare (XName "value") [(CIs, (XConst PNone))]) [(SReturn (Some (XConst PNone)))] []); (SIf (XNot (XName "value")) [(SReturn (Some (XConst (PBool false))))] [])]); (SReturn (Some (XConst (PBool true))))] |}.
+     f_body := [(SFor "arg" (XAttr (XName "self") "args") [(SAssign (TName "value") (XCall (XName "arg") [(XName "context")] None)); (SIf (XCompare (XName "value") [(CIs, (XConst PNone))]) [(SReturn (Some (XConst PNone)))] []); (SIf (XNot (XName "value")) [(SReturn (Some (XConst (PBool false))))] [])]); (SReturn (Some (XConst (PBool true))))];
+     f_gen := false |}.
 
 (* beanquery.query_compile.EvalOr.__call__ *)
 Definition node_or : fdef :=
   {| f_params := ["self"; "context"];
-     f_body := [(SAssign (TName "r") (XConst (PBool false))); (SFor "arg" (XAttr (XName "self") "args") [(SAssign (TName "value") (XCall (XName "arg") [(XName "context")] None)); (SIf (XCompare (XName "value") [(CIs, (XConst PNone))]) [(SAssign (TName "r") (XConst PNone))] []); (SIf (XName "value") [(SReturn (Some (XConst (PBool true))))] [])]); (SReturn (Some (XName "r")))] |}.
+     f_body := [(SAssign (TName "r") (XConst (PBool false))); (SFor "arg" (XAttr (XName "self") "args") [(SAssign (TName "value") (XCall (XName "arg") [(XName "context")] None)); (SIf (XCompare (XName "value") [(CIs, (XConst PNone))]) [(SAssign (TName "r") (XConst PNone))] []); (SIf (XName "value") [(SReturn (Some (XConst (PBool true))))] [])]); (SReturn (Some (XName "r")))];
+     f_gen := false |}.
 
 (* beanquery.query_compile.EvalCoalesce.__call__ *)
 Definition node_coalesce : fdef :=
   {| f_params := ["self"; "context"];
-     f_body := [(SFor "arg" (XAttr (XName "self") "args") [(SAssign (TName "value") (XCall (XName "arg") [(XName "context")] None)); (SIf (XCompare (XName "value") [(CIsNot, (XConst PNone))]) [(SReturn (Some (XName "value")))] [])]); (SReturn (Some (XConst PNone)))] |}.
+     f_body := [(SFor "arg" (XAttr (XName "self") "args") [(SAssign (TName "value") (XCall (XName "arg") [(XName "context")] None)); (SIf (XCompare (XName "value") [(CIsNot, (XConst PNone))]) [(SReturn (Some (XName "value")))] [])]); (SReturn (Some (XConst PNone)))];
+     f_gen := false |}.
 
 (* beanquery.query_compile.EvalConstant.__call__ *)
 Definition node_constant : fdef :=
   {| f_params := ["self"; "_"];
-     f_body := [(SReturn (Some (XAttr (XName "self") "value")))] |}.
+     f_body := [(SReturn (Some (XAttr (XName "self") "value")))];
+     f_gen := false |}.
 
 (* beanquery.query_env.function.<locals>.decorator.<locals>.Func.__call__ (pass_row=False, pass_context=False; instance: bool) *)
 Definition func_wrapper_plain : fdef :=
   {| f_params := ["self"; "row"];
-     f_body := [(SAssign (TName "args") (XListComp (XCall (XName "operand") [(XName "row")] None) "operand" (XAttr (XName "self") "operands"))); (SFor "arg" (XName "args") [(SIf (XCompare (XName "arg") [(CIs, (XConst PNone))]) [(SReturn (Some (XConst PNone)))] [])]); (SIf (XConst (PBool false)) [(SReturn (Some (XCall (XConst (PRef 0)) [(XName "row")] (Some (XName "args")))))] []); (SIf (XConst PNone) [(SReturn (Some (XCall (XConst (PRef 0)) [(XAttr (XName "self") "context")] (Some (XName "args")))))] []); (SReturn (Some (XCall (XConst (PRef 0)) [] (Some (XName "args")))))] |}.
+     f_body := [(SAssign (TName "args") (XListComp (XCall (XName "operand") [(XName "row")] None) "operand" (XAttr (XName "self") "operands") None)); (SFor "arg" (XName "args") [(SIf (XCompare (XName "arg") [(CIs, (XConst PNone))]) [(SReturn (Some (XConst PNone)))] [])]); (SIf (XConst (PBool false)) [(SReturn (Some (XCall (XConst (PRef 0)) [(XName "row")] (Some (XName "args")))))] []); (SIf (XConst PNone) [(SReturn (Some (XCall (XConst (PRef 0)) [(XAttr (XName "self") "context")] (Some (XName "args")))))] []); (SReturn (Some (XCall (XConst (PRef 0)) [] (Some (XName "args")))))];
+     f_gen := false |}.
 
 (* beanquery.query_env.function.<locals>.decorator.<locals>.Func.__call__ (pass_row=False, pass_context=True; instance: open_date) *)
 Definition func_wrapper_context : fdef :=
   {| f_params := ["self"; "row"];
-     f_body := [(SAssign (TName "args") (XListComp (XCall (XName "operand") [(XName "row")] None) "operand" (XAttr (XName "self") "operands"))); (SFor "arg" (XName "args") [(SIf (XCompare (XName "arg") [(CIs, (XConst PNone))]) [(SReturn (Some (XConst PNone)))] [])]); (SIf (XConst (PBool false)) [(SReturn (Some (XCall (XConst (PRef 0)) [(XName "row")] (Some (XName "args")))))] []); (SIf (XConst (PBool true)) [(SReturn (Some (XCall (XConst (PRef 0)) [(XAttr (XName "self") "context")] (Some (XName "args")))))] []); (SReturn (Some (XCall (XConst (PRef 0)) [] (Some (XName "args")))))] |}.
+     f_body := [(SAssign (TName "args") (XListComp (XCall (XName "operand") [(XName "row")] None) "operand" (XAttr (XName "self") "operands") None)); (SFor "arg" (XName "args") [(SIf (XCompare (XName "arg") [(CIs, (XConst PNone))]) [(SReturn (Some (XConst PNone)))] [])]); (SIf (XConst (PBool false)) [(SReturn (Some (XCall (XConst (PRef 0)) [(XName "row")] (Some (XName "args")))))] []); (SIf (XConst (PBool true)) [(SReturn (Some (XCall (XConst (PRef 0)) [(XAttr (XName "self") "context")] (Some (XName "args")))))] []); (SReturn (Some (XCall (XConst (PRef 0)) [] (Some (XName "args")))))];
+     f_gen := false |}.
 
 (* beanquery.query_env.function.<locals>.decorator.<locals>.Func.__call__ (pass_row=True, pass_context=False; instance: any_meta) *)
 Definition func_wrapper_row : fdef :=
   {| f_params := ["self"; "row"];
-     f_body := [(SAssign (TName "args") (XListComp (XCall (XName "operand") [(XName "row")] None) "operand" (XAttr (XName "self") "operands"))); (SFor "arg" (XName "args") [(SIf (XCompare (XName "arg") [(CIs, (XConst PNone))]) [(SReturn (Some (XConst PNone)))] [])]); (SIf (XConst (PBool true)) [(SReturn (Some (XCall (XConst (PRef 0)) [(XName "row")] (Some (XName "args")))))] []); (SIf (XConst PNone) [(SReturn (Some (XCall (XConst (PRef 0)) [(XAttr (XName "self") "context")] (Some (XName "args")))))] []); (SReturn (Some (XCall (XConst (PRef 0)) [] (Some (XName "args")))))] |}.
+     f_body := [(SAssign (TName "args") (XListComp (XCall (XName "operand") [(XName "row")] None) "operand" (XAttr (XName "self") "operands") None)); (SFor "arg" (XName "args") [(SIf (XCompare (XName "arg") [(CIs, (XConst PNone))]) [(SReturn (Some (XConst PNone)))] [])]); (SIf (XConst (PBool true)) [(SReturn (Some (XCall (XConst (PRef 0)) [(XName "row")] (Some (XName "args")))))] []); (SIf (XConst PNone) [(SReturn (Some (XCall (XConst (PRef 0)) [(XAttr (XName "self") "context")] (Some (XName "args")))))] []); (SReturn (Some (XCall (XConst (PRef 0)) [] (Some (XName "args")))))];
+     f_gen := false |}.
 
 Definition refs : list (nat * string) :=
   [(0%nat, "closure:func")].
